@@ -18,7 +18,7 @@ import layouts
 
 LEVEL = "proof"
 CONVERT = "org.olareg.referrer.convert"
-KINDS = ["accurate", "stale", "mixed", "wrongdesc", "coexist", "coexist2", "coexist3", "valid-plus-mixed", "two-mixed", "sha512", "missing", "two-subjects"]
+KINDS = ["accurate", "accurate-dup", "stale", "mixed", "wrongdesc", "coexist", "coexist2", "coexist3", "valid-plus-mixed", "two-mixed", "sha512", "missing", "two-subjects"]
 
 
 def s_entry(e):
